@@ -151,6 +151,8 @@ def _thread_chain(caller, start, tracked):
     n0 = len(blocks)
     tracked = dict(tracked)
     discr = {}
+    refs = {}       # reference local -> tracked local it borrows
+    bools = {}      # bool local -> known value (result of is_ok/is_err/is_some/is_none on a tracked value)
     first = None
     prev = None
     cur = start
@@ -165,7 +167,9 @@ def _thread_chain(caller, start, tracked):
             first = idx
         if prev is not None:
             pt = blocks[prev]["term"]
-            if pt["k"] == "switch":
+            if pt["k"] == "switch" and pt.get("threaded_otherwise"):
+                pt["otherwise"] = idx
+            elif pt["k"] == "switch":
                 pt["targets"] = [[pt["targets"][0][0], idx]]
             else:
                 pt["target"] = idx
@@ -173,7 +177,7 @@ def _thread_chain(caller, start, tracked):
         return idx
 
     for _ in range(CHAIN_LIMIT):
-        if cur is None or cur in seen or not (tracked or discr):
+        if cur is None or cur in seen or not (tracked or discr or bools):
             break
         seen.add(cur)
         blk = blocks[cur]
@@ -197,6 +201,21 @@ def _thread_chain(caller, start, tracked):
             elif "discr" in rv and not rv["discr"]["p"] and rv["discr"]["l"] in tracked:
                 dk = (tracked[rv["discr"]["l"]][0], rv.get("variants") or {})
             if not dst["p"]:
+                refs.pop(dst["l"], None)
+                bools.pop(dst["l"], None)
+                if "ref" in rv and not rv["ref"]["p"] and rv["ref"]["l"] in tracked:
+                    refs[dst["l"]] = rv["ref"]["l"]
+                elif "use" in rv:
+                    src2 = rv["use"].get("move") or rv["use"].get("copy")
+                    if src2 and not src2["p"] and src2["l"] in refs:
+                        refs[dst["l"]] = refs[src2["l"]]
+                    if src2 and not src2["p"] and src2["l"] in bools:
+                        bools[dst["l"]] = bools[src2["l"]]
+                elif rv.get("un") == "Not" and isinstance(rv.get("a"), dict):
+                    src2 = rv["a"].get("move") or rv["a"].get("copy")
+                    if src2 and not src2["p"] and src2["l"] in bools:
+                        bools[dst["l"]] = not bools[src2["l"]]
+            if not dst["p"]:
                 tracked.pop(dst["l"], None)
                 discr.pop(dst["l"], None)
                 if val is not None:
@@ -212,6 +231,25 @@ def _thread_chain(caller, start, tracked):
             continue
         if k == "switch":
             on = t["on"].get("move") or t["on"].get("copy")
+            if on and not on["p"] and on["l"] in bools and t.get("on_ty") == "bool":
+                want = 1 if bools[on["l"]] else 0
+                tgt = t["otherwise"]
+                for v, b in t["targets"]:
+                    if v == want:
+                        tgt = b
+                blocks.append({"cleanup": False, "stmts": [], "term": {"k": "unreachable"}, "threaded": True})
+                dead = len(blocks) - 1
+                explicit = [v for v, _ in t["targets"]]
+                if want in explicit:
+                    nt = {"k": "switch", "on": copy.deepcopy(t["on"]), "on_ty": "bool", "targets": [[want, tgt]], "otherwise": dead, "span": t.get("span"), "threaded_switch": True}
+                else:
+                    # the wanted value is the `otherwise` arm: keep the explicit value pointing at the dead block
+                    nt = {"k": "switch", "on": copy.deepcopy(t["on"]), "on_ty": "bool", "targets": [[explicit[0], dead]], "otherwise": tgt, "span": t.get("span"),
+                          "threaded_switch": True, "threaded_otherwise": True}
+                emit(copy.deepcopy(blk["stmts"]), nt)
+                gained = True
+                cur = tgt
+                continue
             if on and not on["p"] and on["l"] in discr:
                 name, vmap = discr[on["l"]]
                 vals = [int(x) for x, nm in vmap.items() if nm == name]
@@ -234,6 +272,19 @@ def _thread_chain(caller, start, tracked):
                     cur = tgt
                     continue
             break
+        if k == "call" and t["callee"]["name"] in ("is_ok", "is_err", "is_some", "is_none") and len(t["args"]) == 1 and isinstance(t.get("target"), int) and not t["dest"]["p"]:
+            a = t["args"][0].get("move") or t["args"][0].get("copy")
+            src = None
+            if a and not a["p"]:
+                src = refs.get(a["l"], a["l"] if a["l"] in tracked else None)
+            if src is not None and src in tracked:
+                var = tracked[src][0]
+                truth = {"is_ok": var == "Ok", "is_err": var == "Err", "is_some": var == "Some", "is_none": var == "None"}[t["callee"]["name"]]
+                if var in ("Ok", "Err", "Some", "None"):
+                    emit(copy.deepcopy(blk["stmts"]), copy.deepcopy(t))
+                    bools[t["dest"]["l"]] = truth
+                    cur = t["target"]
+                    continue
         if k == "call" and t["callee"]["name"] == "branch" and len(t["args"]) == 1 and isinstance(t.get("target"), int) and not t["dest"]["p"]:
             a = t["args"][0].get("move") or t["args"][0].get("copy")
             if a and not a["p"] and a["l"] in tracked and tracked[a["l"]][0] in BRANCH_MAP:
@@ -249,7 +300,9 @@ def _thread_chain(caller, start, tracked):
     # link the end of the specialised chain back into the original code
     if prev is not None and cur is not None:
         pt = blocks[prev]["term"]
-        if pt["k"] == "switch":
+        if pt["k"] == "switch" and pt.get("threaded_otherwise"):
+            pt["otherwise"] = cur
+        elif pt["k"] == "switch":
             pt["targets"] = [[pt["targets"][0][0], cur]]
         elif pt["k"] != "goto" or pt["target"] != cur:
             # last emitted block still points at an original successor: that is `cur`
@@ -460,6 +513,45 @@ def inline_poll(caller, bb, coro, coro_path, helper_path, clo_alias):
     caller["blocks"][bb]["term"] = {"k": "goto", "target": entry, "inlined_call": coro_path, "span": span}
     _thread_returns(caller, coro, entry, ret_blocks, poll["dest"], cont, True)
     return True
+
+
+def thread_known_variants(body):
+    """Intra-procedural jump threading for a function that differs from the reference tree: where a block gives a
+    local a known Result/Option variant (an aggregate, or the residual of a `?`) and a side-effect-free chain leads to
+    a test of that local (match, `?`, is_ok/is_err/is_some/is_none), the path continues at the arm the test selects.
+    Returns the number of specialised paths."""
+    n = 0
+    nblocks = len(body["blocks"])
+    ret_ty = body["locals"][0]["ty"] if body["locals"] else ""
+    for bi in range(nblocks):
+        blk = body["blocks"][bi]
+        if blk.get("cleanup") or blk.get("threaded"):
+            continue
+        t = blk["term"]
+        known = {}
+        for s_ in blk["stmts"]:
+            if s_["k"] == "assign" and not s_["place"]["p"]:
+                rv = s_["rv"]
+                known.pop(s_["place"]["l"], None)
+                if rv.get("agg") == "adt" and rv.get("adt") in ("std::result::Result", "std::option::Option") and isinstance(rv.get("variant"), str):
+                    known[s_["place"]["l"]] = (rv["variant"], None)
+        nxt = None
+        if t["k"] in ("goto", "false_edge", "drop") and isinstance(t.get("target"), int):
+            nxt = t["target"]
+        elif t["k"] == "call" and t["callee"]["name"] == "from_residual" and not t["dest"]["p"] and isinstance(t.get("target"), int):
+            ty = body["locals"][t["dest"]["l"]]["ty"]
+            v = "Err" if ty.startswith("std::result::Result<") else "None" if ty.startswith("std::option::Option<") else None
+            if v:
+                known = {t["dest"]["l"]: (v, None)}
+                nxt = t["target"]
+        known = {l: v for l, v in known.items() if l != 0}   # the return place is tested by the caller, not here
+        if not known or nxt is None:
+            continue
+        head = _thread_chain(body, nxt, known)
+        if head is not None:
+            _redirect(t, nxt, head)
+            n += 1
+    return n
 
 
 def _direct_callees(body):
